@@ -4047,10 +4047,14 @@ class NetCDFRead(IORead):
 
                         dimensions = [dim]
 
-                        coord = self.implementation.construct_insert_dimension(
-                            construct=coord, position=0
-                        )
-                        g["auxiliary_coordinate"][ncvar] = coord
+                        if not self.implementation.get_data_ndim(coord):
+                            # (A construct copied from the cache, for
+                            # a second field/domain, already has its
+                            # size one dimension)
+                            coord = self.implementation.construct_insert_dimension(
+                                construct=coord, position=0
+                            )
+                            g["auxiliary_coordinate"][ncvar] = coord
                     else:
                         # Numeric valued scalar coordinate
                         is_scalar_dimension_coordinate = True
